@@ -2,14 +2,14 @@
 from obligations import obl
 from harness import o_burn as B
 
-_M, _T = 'EPV.Props.C08.Burn', 'EPV.C08.'
+_M, _T = 'EPV.Props.C08.Burn', 'EPV.C08.'      # one module per solver: _M + 'K1' | 'K2' | 'K3' | 'DSD'
 _o = [
-    obl('C08.burn.k1', _M, [_T + n for n in ('k1d2_outcome_scale', 'k1d2_scale', 'k1d3_outcome_scale', 'k1d3_scale',
+    obl('C08.burn.k1', _M + 'K1', [_T + n for n in ('k1d2_outcome_scale', 'k1d2_scale', 'k1d3_outcome_scale', 'k1d3_scale',
                                              'k1d2_positions_scale')], ['K1d2', 'K1d3'], B.units['k1']),
-    obl('C08.burn.k2', _M, [_T + n for n in ('k2d2_adm_scale', 'k2d2_scale', 'k2d3_adm_scale', 'k2d3_scale')],
+    obl('C08.burn.k2', _M + 'K2', [_T + n for n in ('k2d2_adm_scale', 'k2d2_scale', 'k2d3_adm_scale', 'k2d3_scale')],
         ['K2d2', 'K2d3'], B.units['k2']),
-    obl('C08.burn.k3', _M, [_T + 'k3d2_scale', _T + 'k3d3_scale'], ['K3d2', 'K3d3'], B.units['k3']),
-    obl('C08.burn.dsd', _M, [_T + 'dsdcyl_outcome_scale', _T + 'dsdcyl_scale'], ['DSDCyl'], B.units['dsd']),
+    obl('C08.burn.k3', _M + 'K3', [_T + 'k3d2_scale', _T + 'k3d3_scale'], ['K3d2', 'K3d3'], B.units['k3']),
+    obl('C08.burn.dsd', _M + 'DSD', [_T + 'dsdcyl_outcome_scale', _T + 'dsdcyl_scale'], ['DSDCyl'], B.units['dsd']),
 ]
 PROP = dict(
     groups=['burn'],
